@@ -34,13 +34,63 @@ type RBoard struct {
 	Mid  *RMid
 }
 
-// boardReach lists the struct types reachable from RBoard and how the first step gets there.
-var boardReach = []struct {
-	via string
-	typ any
-}{
-	{"self", &RBoard{}}, {"plain", &RCellD{}}, {"ptr", &RCellP{}}, {"slice", &RCellS{}}, {"map", &RCellM{}},
-	{"array", &RCellA{}}, {"ptr", &RMid{}}, {"ptr/array", &RLeafA{}}, {"ptr/slice", &RLeafS{}},
+// Containers of containers, two and three levels, mixed kinds.
+type RN1 struct{ V int }
+type RN2 struct{ V int }
+type RN3 struct{ V int }
+type RN4 struct{ V int }
+type RN5 struct{ V int }
+type RN6 struct{ V int }
+type RN7 struct{ V int }
+type RN8 struct{ V int }
+type RN9 struct{ V int }
+
+type RNest struct {
+	LL  [][]RN1
+	ML  map[string][]RN2
+	PA  *[2]RN3
+	SP  []*RN4
+	PP  **RN5
+	LML []map[string][]RN6
+	APS [2]*[]RN7
+	MAP map[string][2]*RN8
+	PPP ***RN9
+}
+
+type reach struct {
+	via  string   // for the reader: the field(s) on the way
+	path []string // container kinds from the field type down to the struct type (of the LAST struct step)
+	typ  any
+}
+
+// boardReach / nestReach list the struct types reachable from RBoard / RNest.
+var boardReach = []reach{
+	{"self", nil, &RBoard{}}, {"plain", nil, &RCellD{}}, {"ptr", []string{"ptr"}, &RCellP{}}, {"slice", []string{"slice"}, &RCellS{}},
+	{"map", []string{"map"}, &RCellM{}}, {"array", []string{"array"}, &RCellA{}}, {"ptr", []string{"ptr"}, &RMid{}},
+	{"ptr/array", []string{"array"}, &RLeafA{}}, {"ptr/slice", []string{"slice"}, &RLeafS{}},
+}
+
+var nestReach = []reach{
+	{"self", nil, &RNest{}},
+	{"slice-slice", []string{"slice", "slice"}, &RN1{}},
+	{"map-slice", []string{"map", "slice"}, &RN2{}},
+	{"ptr-array", []string{"ptr", "array"}, &RN3{}},
+	{"slice-ptr", []string{"slice", "ptr"}, &RN4{}},
+	{"ptr-ptr", []string{"ptr", "ptr"}, &RN5{}},
+	{"slice-map-slice", []string{"slice", "map", "slice"}, &RN6{}},
+	{"array-ptr-slice", []string{"array", "ptr", "slice"}, &RN7{}},
+	{"map-array-ptr", []string{"map", "array", "ptr"}, &RN8{}},
+	{"ptr-ptr-ptr", []string{"ptr", "ptr", "ptr"}, &RN9{}},
+}
+
+// singleStepReaches mirrors Reuse/Registry.lean `reaches … false`: the walk takes the element type of
+// ONE container, the recursive registerComposer call dereferences one leading pointer, and must then
+// be at the struct type.
+func singleStepReaches(path []string) bool {
+	if len(path) > 0 {
+		path = path[1:]
+	}
+	return len(path) == 0 || (len(path) == 1 && path[0] == "ptr")
 }
 
 func boardData(v int64) map[string]any {
@@ -54,8 +104,8 @@ func boardData(v int64) map[string]any {
 	}
 }
 
-// RegistryClosure is the deterministic oracle for "registered beforehand": after RBoard ALONE has been
-// registered (through each registration route), every struct type reachable through its fields must
+// RegistryClosure is the deterministic oracle for "registered beforehand": after RBoard and RNest ALONE have
+// been registered (through each registration route), every struct type reachable through their fields must
 // already be in the registry — else the first Recompose calls register it on the fly, an unsynchronised
 // write to a map other goroutines read. Observed through the public API on a Recomposer of its own:
 // a map carrying the create key and a type's name recomposes to that type iff the name is registered
@@ -66,14 +116,17 @@ func (run *Run) RegistryClosure(emit func(lib.Finding)) int {
 		mk   func() (*alt.Recomposer, error)
 	}{
 		{"NewRecomposer", func() (*alt.Recomposer, error) {
-			return alt.NewRecomposer("^", map[any]alt.RecomposeFunc{&RBoard{}: nil})
+			return alt.NewRecomposer("^", map[any]alt.RecomposeFunc{&RBoard{}: nil, &RNest{}: nil})
 		}},
 		{"RegisterComposer", func() (*alt.Recomposer, error) {
 			r, err := alt.NewRecomposer("^", nil)
 			if err != nil {
 				return nil, err
 			}
-			return r, r.RegisterComposer(&RBoard{}, nil)
+			if err = r.RegisterComposer(&RBoard{}, nil); err != nil {
+				return nil, err
+			}
+			return r, r.RegisterComposer(&RNest{}, nil)
 		}},
 	}
 	n := 0
@@ -84,26 +137,38 @@ func (run *Run) RegistryClosure(emit func(lib.Finding)) int {
 				Replay: map[string]any{"scenario": "registry-closure", "route": rt.name}})
 			continue
 		}
-		for _, br := range boardReach {
-			n++
-			want := reflect.TypeOf(br.typ)
-			name := want.Elem().Name()
-			var got any
-			var pan any
-			func() {
-				defer func() { pan = recover() }()
-				got, err = rec.Recompose(map[string]any{"^": name, "v": int64(7)})
-			}()
-			run.Rep.Count("c08.registry.probes", 1)
-			if pan == nil && err == nil && got != nil && reflect.TypeOf(got) == want {
-				continue
+		roots := []struct {
+			name string
+			list []reach
+		}{{"RBoard", boardReach}, {"RNest", nestReach}}
+		for _, root := range roots {
+			for _, br := range root.list {
+				n++
+				want := reflect.TypeOf(br.typ)
+				name := want.Elem().Name()
+				var got any
+				var pan any
+				func() {
+					defer func() { pan = recover() }()
+					got, err = rec.Recompose(map[string]any{"^": name, "v": int64(7)})
+				}()
+				run.Rep.Count("c08.registry.probes", 1)
+				if pan == nil && err == nil && got != nil && reflect.TypeOf(got) == want {
+					continue
+				}
+				fd := lib.Finding{Kind: "violation", Class: "registration-not-closed:" + br.via + ":" + name,
+					What: fmt.Sprintf("after %s of %s alone, the struct type %s (reached through %s) is not in the registry: "+
+						"{\"^\":%q,\"v\":7} recomposes to %s (error %v, panic %v) instead of a %s — the first Recompose calls into a %s register it on the fly, "+
+						"a write to r.composers that is not synchronised with the reads of other goroutines",
+						rt.name, root.name, name, br.via, name, Render(got), err, pan, want, root.name),
+					Replay: map[string]any{"scenario": "registry-closure", "route": rt.name, "root": root.name, "type": name, "via": br.via}}
+				// C08-registry-nested-containers: the type sits behind two or more container levels that the
+				// single step of the field walk (plus the one pointer registerComposer dereferences) does not get through
+				if !singleStepReaches(br.path) && len(br.path) >= 2 && lib.HasKnown(run.Known, "C08-registry-nested-containers") {
+					fd.Kind, fd.KnownID = "known", "C08-registry-nested-containers"
+				}
+				emit(fd)
 			}
-			emit(lib.Finding{Kind: "violation", Class: "registration-not-closed:" + br.via + ":" + name,
-				What: fmt.Sprintf("after %s of RBoard alone, the struct type %s (reached through a %s field) is not in the registry: "+
-					"{\"^\":%q,\"v\":7} recomposes to %s (error %v, panic %v) instead of a %s — the first Recompose calls into an RBoard register it on the fly, "+
-					"a write to r.composers that is not synchronised with the reads of other goroutines",
-					rt.name, name, br.via, name, Render(got), err, pan, want),
-				Replay: map[string]any{"scenario": "registry-closure", "route": rt.name, "type": name, "via": br.via}})
 		}
 		// and the recomposition itself is right (the types are usable, not only listed)
 		n++
